@@ -343,7 +343,7 @@ def run_property(pid, tier, seed, units, quiet=False):
     t0 = time.time()
     props = props_table()
     prop = props[pid]
-    mine = [u for u in units.values() if pid in u.serves]
+    mine = [u for u in units.values() if pid in u.tagged]
     if not mine:
         print(f'UNDECIDED property={pid} reason=no unit serves this property')
         return 2, None
